@@ -22,6 +22,8 @@ class T:
         return self._h
 
     def __eq__(self, other):
+        if self is other:
+            return True
         return isinstance(other, T) and self._h == other._h and self.op == other.op and _eq_args(self.args, other.args)
 
     def __ne__(self, other):
@@ -42,6 +44,8 @@ def _fzdeep(v):
 
 
 def _eq_args(a, b):
+    if a is b:
+        return True
     if len(a) != len(b):
         return False
     for x, y in zip(a, b):
@@ -52,6 +56,8 @@ def _eq_args(a, b):
 
 def veq(x, y):
     """Equality of values that distinguishes True from 1 and b'' from ''."""
+    if x is y:
+        return True
     if isinstance(x, T) or isinstance(y, T):
         return isinstance(x, T) and isinstance(y, T) and x == y
     if type(x) is not type(y):
@@ -368,11 +374,13 @@ def idx(x, i):
             pos += pl
     if isinstance(x, T) and x.op == "map" and x.args[2] is None:
         body, it = x.args[0], x.args[1]
-        depths = [s.args[0] for s in subterms(body) if isinstance(s, T) and s.op == "bv"]
+        depths = [s.args[0] for s in subterms(body) if isinstance(s, T) and s.op in ("bv", "bvi")]
         if depths:
             d = min(depths)
             elem = idx(it, i)
-            return subst(body, lambda s: elem if isinstance(s, T) and s.op == "bv" and s.args[0] == d else None)
+            if isinstance(it, T) and it.op == "enumerate":
+                elem = idx(it.args[0], i)
+            return subst(body, lambda s: (elem if s.op == "bv" else i) if isinstance(s, T) and s.op in ("bv", "bvi") and s.args[0] == d else None)
     ty = ANY
     if tyof(x) == BYTES:
         ty = INT
@@ -688,18 +696,24 @@ def join(sep, lst):
 
 
 # ----------------------------------------------------------------------------- traversal / printing
-def subterms(v):
-    """All sub-values (terms and leaves) of v, pre-order."""
+def subterms(v, _seen=None):
+    """All sub-values (terms and leaves) of v, pre-order; a shared sub-term object is visited once."""
+    if _seen is None:
+        _seen = set()
+    if isinstance(v, (T, list, tuple, dict)):
+        if id(v) in _seen:
+            return
+        _seen.add(id(v))
     yield v
     if isinstance(v, T):
         for a in v.args:
-            yield from subterms(a)
+            yield from subterms(a, _seen)
     elif isinstance(v, (list, tuple)):
         for a in v:
-            yield from subterms(a)
+            yield from subterms(a, _seen)
     elif isinstance(v, dict):
         for a in v.values():
-            yield from subterms(a)
+            yield from subterms(a, _seen)
 
 
 def contains(v, pred):
@@ -767,20 +781,28 @@ def _unfz_shallow(v):
     return v
 
 
-def subst(v, f):
-    """Bottom-up rewrite: f(term) -> replacement or None.  Rebuilt terms are re-normalised."""
+def subst(v, f, memo=None):
+    """Bottom-up rewrite: f(term) -> replacement or None.  Rebuilt terms are re-normalised.  Shared sub-terms are
+    rewritten once (memo)."""
+    if memo is None:
+        memo = {}
     if isinstance(v, T):
-        newargs = [subst(a, f) for a in v.args]
-        changed = any(not veq(x, y) for x, y in zip(newargs, v.args))
+        hit = memo.get(v, memo)
+        if hit is not memo:
+            return hit
+        newargs = [subst(a, f, memo) for a in v.args]
+        changed = any(x is not y and not veq(x, y) for x, y in zip(newargs, v.args))
         new = renorm(v.op, newargs, v.ty) if changed else v
         r = f(new) if isinstance(new, T) else None
-        return new if r is None else r
+        out = new if r is None else r
+        memo[v] = out
+        return out
     if isinstance(v, list):
-        return [subst(a, f) for a in v]
+        return [subst(a, f, memo) for a in v]
     if isinstance(v, tuple):
-        return tuple(subst(a, f) for a in v)
+        return tuple(subst(a, f, memo) for a in v)
     if isinstance(v, dict):
-        return {k: subst(a, f) for k, a in v.items()}
+        return {k: subst(a, f, memo) for k, a in v.items()}
     r = f(v)
     return v if r is None else r
 
